@@ -379,7 +379,7 @@ def _tree_hash():
 def variant_exec(name):
     """Build (or reuse, keyed by a hash of /repo's working tree and the harness) an executor
     variant. Returns (binary_path or None, error_text)."""
-    if name in ("host", "noavx2", "nosse2"):
+    if name in ("host", "noavx2", "nosse2", "notrace"):
         return EXEC, ""
     key = "%s-%s" % (name, _tree_hash())
     cache = os.path.join(WORK, "emu")
@@ -429,7 +429,8 @@ def variant_exec(name):
             shutil.rmtree(scratch, ignore_errors=True)
 
 
-VARIANT_ENV = {"noavx2": {"MEMCHR_VERIF_FORCE": "noavx2"}, "nosse2": {"MEMCHR_VERIF_FORCE": "nosse2"}}
+VARIANT_ENV = {"noavx2": {"MEMCHR_VERIF_FORCE": "noavx2"}, "nosse2": {"MEMCHR_VERIF_FORCE": "nosse2"},
+               "notrace": {"VERIF_NOTRACE": "1"}}
 
 
 def run_grouped(ops_with_meta):
